@@ -173,6 +173,11 @@ func vStepMaker(role int, st StateType) {
 			}
 		}
 		zzverif.Assert(found, "C26.csv_claim_marks_peer_suspicious")
+		onlyPeer := true
+		for i := range w.suspicious {
+			onlyPeer = onlyPeer && w.suspicious[i] == pd.PeerNodeId
+		}
+		zzverif.Assert(onlyPeer, "C26.nobody_else_is_marked_suspicious")
 	}
 	// ---- C23: a maker never sends its swap key, its preimage or fresh key material ----
 	for i := range w.sends {
